@@ -92,7 +92,7 @@ def handleParser (args : List Sexp) : String :=
   | some pat, some mask, some mco =>
     let E : Env := { pat := pat, opts := Opts.ofMask mask, mco := mco, orc := mkOracles args }
     match parse E with
-    | .ok t => toString (mk "ok" [nodeSexp t.root, tablesSexp t.tables])
+    | .ok t => if wfTree t then toString (mk "ok" [nodeSexp t.root, tablesSexp t.tables]) else "(notwf)"
     | .error c => toString (mk "error" [atom (errName c)])
     | .fault f => toString (mk "fault" [atom (faultName f)])
     | .fuel => "(fuel)"
